@@ -1,9 +1,9 @@
 (* Property C16: Krylov solvers return Ritz data of the operator they are given.
    Index/coefficient bookkeeping of krylov_based.py (Model/Krylov.v); only statements here, every proof is
-   `exact <lemma from Proofs/KrylovP.v>`.  The spectral clauses (Rayleigh quotient >= lambda_min for an
+   `exact <lemma from Proofs/KrylovP.v or Proofs/KrylovP2.v>`.  The spectral clauses (Rayleigh quotient >= lambda_min for an
    arbitrary Hermitian operator, equality at full Krylov dimension, accuracy of exp) are decided by the
    oracle of harness/c16.py only; see T16_ritz_bound_partial. *)
-From TenpyV Require Import Base.Prelude Model.Truncate Model.Krylov Proofs.KrylovP.
+From TenpyV Require Import Base.Prelude Model.Truncate Model.Krylov Proofs.KrylovP Model.Krylov2 Proofs.KrylovP2.
 
 (* the cache never holds more than N_cache vectors and always holds exactly the last min(k, N_cache) *)
 Theorem T16_cache_bounded : forall nc k, (1 <= nc)%nat ->
@@ -47,6 +47,113 @@ Theorem T16_ritz_bound_partial : forall lam d x,
   Forall (fun di => (lam <= di)%Z) d -> (lam * rq_den d x <= rq_num d x)%Z.
 Proof. exact ritz_bound_diag. Qed.
 
+(* ---- T16_tridiagonal: the accesses to the small matrix h = _h_krylov (Model/Krylov2.v: lanczos_hevents is the event
+   list of Model/Krylov.v with the writes HW / block reads HRB / entry reads HR of h interleaved in program order;
+   Alpha k, Beta k name the floats computed in iteration k, HZero the np.zeros content; cv[k] says whether
+   LanczosGroundState._converged(k) was called).  Tie to the code: check_hevents compares this interleaved list
+   with the instrumented run (ndarray subclass logging __setitem__/__getitem__ of _h_krylov) for every Lanczos case
+   of harness/c16.py; the instrumentation also checks at each block read that the float block is the symmetric
+   tridiagonal matrix of the values written so far.  Float values themselves are not modelled. *)
+
+(* (a) for every N: the run writes exactly h[k,k], h[k,k+1], h[k+1,k] for k < N, each exactly once, with
+   Alpha k / Beta k (= tri_entry), all inside the (N_max+1)x(N_max+1) array when N <= N_max *)
+Theorem T16_tridiagonal_writes : forall nc re N cv,
+  let ws := h_writes (lanczos_hevents nc re N cv) in
+  ws = build_writes N /\
+  NoDup (map wpos ws) /\
+  (forall i j, In (i, j) (map wpos ws) <->
+     (i = j /\ i < N)%nat \/ (j = S i /\ i < N)%nat \/ (i = S j /\ j < N)%nat) /\
+  (forall i j v, In (i, j, v) ws -> v = tri_entry i j) /\
+  (forall nmax i j, (N <= nmax)%nat -> In (i, j) (map wpos ws) -> (i < S nmax /\ j < S nmax)%nat).
+Proof. exact tridiagonal_writes. Qed.
+
+(* (b)+(c) for every N >= 1 and every position of a read in the program-order event list: the content of h
+   determined by the writes BEFORE the read (last write wins, zeros initially) is
+   - for a block read h[:n,:n] (_calc_result_krylov(n-1), 2 <= n <= N): entry (i,j) = Alpha i on the diagonal,
+     Beta (min i j) next to it, HZero elsewhere: symmetric, tridiagonal, no entry of a later iteration, no band
+     entry that was not yet written;
+   - for an entry read h[i,j] (k = 0 of _calc_result_krylov, _converged, the N = 1 debug message, and
+     alpha = h[k,k], beta = h[k,k+1] of the rebuild loop): i < N and the value is Alpha i (i = j) or Beta i
+     (j = i+1), i.e. exactly what iteration i of the build loop wrote (read after write) *)
+Theorem T16_tridiagonal_reads : forall nc re N cv, (1 <= N)%nat ->
+  let evs := lanczos_hevents nc re N cv in
+  (forall pre post n, evs = pre ++ HRB n :: post ->
+     (2 <= n <= N)%nat /\
+     forall i j, (i < n)%nat -> (j < n)%nat ->
+       h_lookup (h_writes pre) i j = tri_entry i j /\ tri_entry i j = tri_entry j i) /\
+  (forall pre post i j, evs = pre ++ HR i j :: post ->
+     (i < N)%nat /\ ((i = j /\ h_lookup (h_writes pre) i j = Alpha i) \/
+                     (j = S i /\ h_lookup (h_writes pre) i j = Beta i))).
+Proof. exact tridiagonal_reads. Qed.
+
+(* program order: erasing the h accesses gives exactly the correspondence-checked event list of Model/Krylov.v;
+   keeping only them gives: per build iteration k  h[k,k]=, read (h[0,0] or block k+1), h[k,k+1]=, h[k+1,k]=,
+   [read h[k,k+1]]; then (N = 1) reads h[0,0], h[0,1], or (N > 1) per rebuild iteration k < N - len(cache) - 1 <= N - 1
+   reads h[k,k], h[k,k+1]; the build loop has one matvec per iteration k = 0..N-1 *)
+Theorem T16_tridiagonal_order : forall nc re N cv,
+  h_erase (lanczos_hevents nc re N cv) = lanczos_events nc re N /\
+  h_only (lanczos_hevents nc re N cv) = h_accesses nc N cv /\
+  filter is_matvec (build_loop nc re 0 N []) = map (fun k => (2, k, 0, 0)%nat) (seq 0 N) /\
+  (N - length (cache_after nc N) - 1 <= N - 1)%nat.
+Proof. exact tridiagonal_order. Qed.
+
+(* ---- T16_shift: control flow of the E_shift bookkeeping over Z (floats not modelled).
+   krylov_init = the `if self.E_shift is not None` block of KrylovBased.__init__ on operator expressions,
+   run_return = the tail of LanczosGroundState.run (both return paths).  total_shift o = sum of the shifts in o.
+   For every operator expression H, option E_shift, N >= 1: __init__ adds E_shift exactly once to the operator;
+   if the Ritz value of the operator used is (e + shifts already in H) + E_shift (covariance, T16_shift_rayleigh) the
+   returned energy is e + shifts already in H, on the N = 1 and on the N > 1 path; for a caller's operator without
+   shift the returned energy is e. *)
+Theorem T16_shift : forall H es N e, (1 <= N)%nat ->
+  total_shift (fst (krylov_init H es)) = (total_shift H + es_shift es)%Z /\
+  run_return es N (e + total_shift H + es_shift es)%Z = ((e + total_shift H)%Z, negb (N =? 1)%nat) /\
+  (total_shift H = 0%Z -> solve_energy H es N e = e).
+Proof. exact shift_net_zero. Qed.
+
+(* shift covariance, exact algebra over Z: for a diagonal operator d and any vector x the numerator of the Rayleigh
+   quotient shifts by s <x|x> and the denominator is unchanged; for the symmetric tridiagonal matrix (alphas al,
+   betas be) x^T T x with alphas + s equals x^T T x + s x^T x; the three-term recurrence step of H + s with
+   alpha + s gives the same vector as that of H with alpha (so beta and the Krylov vectors are unchanged) *)
+Theorem T16_shift_rayleigh : forall s : Z,
+  (forall d x, rq_num (map (Z.add s) d) x = (rq_num d x + s * rq_den d x)%Z /\
+               rq_den (map (Z.add s) d) x = rq_den d x) /\
+  (forall al be x, tri_form (map (Z.add s) al) be x = (tri_form al be x + s * rq_den al x)%Z) /\
+  (forall d v u a b, lanczos_step (map (Z.add s) d) v u (a + s)%Z b = lanczos_step d v u a b).
+Proof. exact shift_rayleigh. Qed.
+
+(* two solver instances built one after the other on the SAME operator object (total shift 0): the first returns e;
+   the second returns e unless the object is an OrthogonalNpcLinearOperator, whose orig_operator __init__ overwrites
+   in place: then the shift is in the operator twice and subtracted once *)
+Theorem T16_shift_twice : forall H es N1 N2 e, total_shift H = 0%Z ->
+  solve_twice H es N1 N2 e = (e, match H with OOrtho _ => (e + es_shift es)%Z | _ => e end).
+Proof. exact shift_twice. Qed.
+
+(* REFUTED for a shared OrthogonalNpcLinearOperator (known finding F16.1, replayed on the code by harness/c16.py,
+   stream lanczos, option `twice`) *)
+Theorem T16_shift_shared_operator_refuted : exists H es N1 N2 e,
+  total_shift H = 0%Z /\ (1 <= N1)%nat /\ (1 <= N2)%nat /\
+  fst (solve_twice H es N1 N2 e) = e /\ snd (solve_twice H es N1 N2 e) <> e.
+Proof. exact shift_shared_refuted. Qed.
+
+(* ---- Gram-Schmidt indices of the build loop (model build_ortho of Model/Krylov.v, the per-iteration events
+   (3, t, v, c) "w_t -= coef * v_v" that check_lanczos compares with the instrumented run).  For every N_cache >= 2,
+   every N and every iteration k < N: without reortho, w_{k+1} = H v_k is orthogonalised against exactly v_k (alpha)
+   and, for k >= 1, v_{k-1} (beta); with reortho against v_k (alpha) and each v_j, max(0, k+1-N_cache) <= j < k
+   (projection coefficient), every index once; that is against ALL earlier vectors v_0..v_k iff k < N_cache; a vector
+   that left the cache (j < k+1-N_cache) is never used again by any later iteration k' >= k.
+   Index level only: that the float coefficients make the vectors orthogonal is oracle-checked. *)
+Theorem T16_gram_schmidt_indices : forall nc N k, (2 <= nc)%nat -> (k < N)%nat ->
+  nth k (build_ortho nc false 0 N []) [] =
+    (3, S k, k, 0)%nat :: match k with O => [] | S k' => [(3, S k, k', 1)%nat] end /\
+  nth k (build_ortho nc true 0 N []) [] =
+    (3, S k, k, 0)%nat :: map (fun v => (3, S k, v, 2)%nat) (seq (S k - nc) (k - (S k - nc))) /\
+  NoDup (ortho_targets (nth k (build_ortho nc true 0 N []) [])) /\
+  (forall j, In j (ortho_targets (nth k (build_ortho nc true 0 N []) [])) <-> (S k - nc <= j <= k)%nat) /\
+  ((forall j, (j <= k)%nat -> In j (ortho_targets (nth k (build_ortho nc true 0 N []) []))) <-> (k < nc)%nat) /\
+  (forall k' j, (k <= k')%nat -> (k' < N)%nat -> (j < S k - nc)%nat ->
+     ~ In j (ortho_targets (nth k' (build_ortho nc true 0 N []) []))).
+Proof. exact gram_schmidt_indices. Qed.
+
 (* non-vacuity: N = 7 iterations with N_cache = 3: cache, the assembled terms, a piece of the trace *)
 Example T16_example_cache : cache_after 3 7 = [4; 5; 6]%nat.
 Proof. vm_compute. reflexivity. Qed.
@@ -59,6 +166,37 @@ Proof. vm_compute. reflexivity. Qed.
 Example T16_example_ritz : (rq_num [2; 5; 3] [1; -2; 1] = 25 /\ rq_den [2; 5; 3] [1; -2; 1] = 6)%Z.
 Proof. vm_compute. split; reflexivity. Qed.
 
+(* N = 3, N_cache = 2 (rebuild of one vector), _converged called in iterations 1 and 2: all accesses to h in order *)
+Example T16_example_h_accesses :
+  h_only (lanczos_hevents 2 false 3 [false; true; true]) =
+  [HW 0 0 (Alpha 0); HR 0 0; HW 0 1 (Beta 0); HW 1 0 (Beta 0);
+   HW 1 1 (Alpha 1); HRB 2; HW 1 2 (Beta 1); HW 2 1 (Beta 1); HR 1 2;
+   HW 2 2 (Alpha 2); HRB 3; HW 2 3 (Beta 2); HW 3 2 (Beta 2); HR 2 3]%nat.
+Proof. vm_compute. reflexivity. Qed.
+Example T16_example_h_rebuild :
+  skipn 17 (h_only (lanczos_hevents 2 true 5 [])) =
+  [HRB 5; HW 4 5 (Beta 4); HW 5 4 (Beta 4); HR 0 0; HR 0 1; HR 1 1; HR 1 2]%nat.
+Proof. vm_compute. reflexivity. Qed.
+(* the block read in iteration 2 sees the 3x3 tridiagonal matrix; Beta 2 is not yet there *)
+Example T16_example_h_block :
+  let w := h_writes (firstn 22 (lanczos_hevents 2 false 3 [false; true; true])) in
+  nth 22 (lanczos_hevents 2 false 3 [false; true; true]) (HR 9 9) = HRB 3 /\
+  map (fun i => map (h_lookup w i) (seq 0 4)) (seq 0 4) =
+  [[Alpha 0; Beta 0; HZero; HZero]; [Beta 0; Alpha 1; Beta 1; HZero]; [HZero; Beta 1; Alpha 2; HZero];
+   [HZero; HZero; HZero; HZero]]%nat.
+Proof. vm_compute. split; reflexivity. Qed.
+Example T16_example_shift :
+  (solve_energy OBase (Some (-20)) 1 7 = 7 /\ solve_energy (OOrtho OBase) (Some 3) 4 7 = 7 /\
+   fst (krylov_init (OOrtho OBase) (Some 3)) = OOrtho (OShift OBase 3) /\
+   tri_form [2; 5; 3] [1; -1] [1; -2; 1] = 25 + 2 * (1 * 1 * -2) + 2 * (-1 * -2 * 1) /\
+   tri_form (map (Z.add 10) [2; 5; 3]) [1; -1] [1; -2; 1] = tri_form [2; 5; 3] [1; -1] [1; -2; 1] + 10 * 6)%Z.
+Proof. vm_compute. repeat split; reflexivity. Qed.
+
+Example T16_example_gs :
+  map ortho_targets (build_ortho 3 true 0 5 []) = [[0]; [1; 0]; [2; 0; 1]; [3; 1; 2]; [4; 2; 3]]%nat /\
+  map ortho_targets (build_ortho 3 false 0 5 []) = [[0]; [1; 0]; [2; 1]; [3; 2]; [4; 3]]%nat.
+Proof. vm_compute. split; reflexivity. Qed.
+
 Print Assumptions T16_cache_bounded.
 Print Assumptions T16_three_term_indices.
 Print Assumptions T16_rebuild_same_recurrence.
@@ -66,3 +204,11 @@ Print Assumptions T16_result_full_indices.
 Print Assumptions T16_cache_independence.
 Print Assumptions T16_arnoldi_order.
 Print Assumptions T16_ritz_bound_partial.
+Print Assumptions T16_tridiagonal_writes.
+Print Assumptions T16_tridiagonal_reads.
+Print Assumptions T16_tridiagonal_order.
+Print Assumptions T16_shift.
+Print Assumptions T16_shift_rayleigh.
+Print Assumptions T16_shift_twice.
+Print Assumptions T16_shift_shared_operator_refuted.
+Print Assumptions T16_gram_schmidt_indices.
